@@ -89,7 +89,7 @@ def _serialize_element(
         # JSON Schema is keyed by the JSON (source) names, and an explicit
         # `required` list is extended by, not replaced with, required flags.
         schema["properties"] = {
-            prop.source or name: prop
+            (prop.source if prop.source is not None else name): prop
             for name, prop in schema["properties"].items()
         }
         required = list(schema.get("required", []))
